@@ -75,3 +75,59 @@ void h_subsuper_cycle(void)
 {
     for (int a = 0; a < 4; a++) for (int b = 0; b < 4; b++) for (int c = 0; c < 4; c++) check_cycle(a, b, c);
 }
+
+/* C04: a select type reachable from itself through select items is rejected (SELECT_LOOP), whatever other items the
+ * selects share.  Graphs: selects B (start), S, C with two item slots each, every slot one of {C, B, S, a non-select item} */
+static struct Scope_ st[3], leaf; static struct TypeHead_ sth[3], lth; static struct TypeBody_ stb[3], ltb;
+static struct Linked_List_ sll[3]; static struct Link_ smk[3], sl0[3], sl1[3]; static char snm[3][2] = { "c", "b", "s" };
+static void check_select_cycle(int b0, int b1, int s0, int s1, int c0, int c1)
+{
+    int slot[3][2] = { { c0, c1 }, { b0, b1 }, { s0, s1 } };       /* node 0 = C, 1 = B, 2 = S; slot value 3 = non-select item */
+    leaf.u.type = &lth; lth.body = &ltb; ltb.type = integer_; leaf.symbol.name = snm[0];
+    for (int k = 0; k < 3; k++) {
+        st[k].u.type = &sth[k]; sth[k].body = &stb[k]; stb[k].type = select_; stb[k].list = &sll[k]; st[k].symbol.name = snm[k]; st[k].search_id = 0;
+        sll[k].mark = &smk[k]; smk[k].next = &sl0[k]; sl0[k].prev = &smk[k]; sl0[k].next = &sl1[k]; sl1[k].prev = &sl0[k]; sl1[k].next = &smk[k]; smk[k].prev = &sl1[k];
+        sl0[k].data = slot[k][0] < 3 ? &st[slot[k][0]] : &leaf; sl1[k].data = slot[k][1] < 3 ? &st[slot[k][1]] : &leaf;
+    }
+    /* spec: B (node 1) reachable from B in >= 1 step */
+    int reach[3] = { 0, 0, 0 };
+    for (int j = 0; j < 2; j++) if (slot[1][j] < 3) reach[slot[1][j]] = 1;
+    for (int round = 0; round < 3; round++) for (int k = 0; k < 3; k++) if (reach[k]) for (int j = 0; j < 2; j++) if (slot[k][j] < 3) reach[slot[k][j]] = 1;
+    __SCOPE_search_id = 5; g_rep_calls = 0;
+    TYPEcheck_select_cyclicity(&st[1]);
+    if (reach[1]) __CPROVER_assert(g_rep_calls >= 1, "C04 a select type that (transitively) selects itself is rejected with an ERROR-class diagnostic, whatever other items the selects share");
+    else __CPROVER_assert(g_rep_calls == 0, "an acyclic select is accepted");
+}
+void h_select_cycle(void)
+{
+    /* C has no select items (both slots non-select) or one: enumerate B and S fully, C in two shapes */
+    for (int b0 = 0; b0 < 4; b0++) for (int b1 = 0; b1 < 4; b1++) for (int s0 = 0; s0 < 4; s0++) for (int s1 = 0; s1 < 4; s1++) {
+        check_select_cycle(b0, b1, s0, s1, 3, 3);
+    }
+}
+
+/* C04: same for subtype graphs with two subtypes per entity (entities A (start), S, C; each slot one of {C, A, S, none}) */
+static void check_cycle2(int a0, int a1, int s0, int s1)
+{
+    static struct Scope_ en[3]; static struct Entity_ ee[3]; static struct Linked_List_ sl[3]; static struct Link_ mk[3], l0[3], l1[3]; static char nm[3][2] = { "c", "a", "s" };
+    int slot[3][2] = { { 3, 3 }, { a0, a1 }, { s0, s1 } };      /* node 0 = C (no subtypes), 1 = A, 2 = S */
+    for (int k = 0; k < 3; k++) {
+        en[k].u.entity = &ee[k]; en[k].symbol.name = nm[k]; en[k].search_id = 0; ee[k].subtypes = &sl[k]; sl[k].mark = &mk[k];
+        /* list of the slots that are not "none", in slot order */
+        struct Link_ *last = &mk[k];
+        if (slot[k][0] < 3) { last->next = &l0[k]; l0[k].prev = last; l0[k].data = &en[slot[k][0]]; last = &l0[k]; }
+        if (slot[k][1] < 3) { last->next = &l1[k]; l1[k].prev = last; l1[k].data = &en[slot[k][1]]; last = &l1[k]; }
+        last->next = &mk[k]; mk[k].prev = last;
+    }
+    int reach[3] = { 0, 0, 0 };
+    for (int j = 0; j < 2; j++) if (slot[1][j] < 3) reach[slot[1][j]] = 1;
+    for (int round = 0; round < 3; round++) for (int k = 0; k < 3; k++) if (reach[k]) for (int j = 0; j < 2; j++) if (slot[k][j] < 3) reach[slot[k][j]] = 1;
+    __SCOPE_search_id = 5; g_rep_calls = 0;
+    ENTITYcheck_subsuper_cyclicity(&en[1]);
+    if (reach[1]) __CPROVER_assert(g_rep_calls >= 1, "C04 an entity that is (transitively) a subtype of itself is rejected with an ERROR-class diagnostic, whatever other subtypes the entities share");
+    else __CPROVER_assert(g_rep_calls == 0, "an acyclic subtype graph is accepted");
+}
+void h_subsuper_cycle2(void)
+{
+    for (int a0 = 0; a0 < 4; a0++) for (int a1 = 0; a1 < 4; a1++) for (int s0 = 0; s0 < 4; s0++) for (int s1 = 0; s1 < 4; s1++) check_cycle2(a0, a1, s0, s1);
+}
